@@ -252,7 +252,7 @@ pub fn check_truth(t: &Truth, acc: &mut Acc) -> CaseResult {
 }
 
 fn run_shard(ctx: &ShardCtx, acc: &mut Acc) {
-    drive(ctx, "layouts", ctx.tier.pick(1_500, 15_000), 300, acc, &|ch, acc| {
+    drive(ctx, "layouts", ctx.tier.pick(2_500, 30_000), 300, acc, &|ch, acc| {
         let t = idiom::gen_truth(ch, 12);
         acc.sample(|| json!({ "truth": t }));
         check_truth(&t, acc)
